@@ -674,4 +674,148 @@ theorem traced_kernels :
     Gen.C10.extendGeometryS, Gen.C10.extendGeometryE, clip1, extend1]
   cases fwd <;> simp <;> omega
 
+/-! ### genome-wide quantities and the streamed per-chromosome path -/
+
+theorem extractChrom_succ {α} (s : Nat) (ss : List Nat) (dense : List α) (c : Nat) (hc : c ≤ ss.length) :
+    extractChrom (s :: ss) dense (c + 1) = extractChrom ss (dense.drop s) c := by
+  simp only [extractChrom, offset_cons_succ s ss c hc, size_cons_succ, List.drop_drop]
+  congr 2
+  omega
+
+theorem toDict_cons {α} (s : Nat) (ss : List Nat) (dense : List α) :
+    toDict (s :: ss) dense = dense.take s :: toDict ss (dense.drop s) := by
+  simp only [toDict, List.length_cons, List.range_succ_eq_map, List.map_cons, List.map_map]
+  have h0 : extractChrom (s :: ss) dense 0 = dense.take s := by
+    simp [extractChrom, offset_cons_zero, size_cons_zero]
+  rw [h0]
+  congr 1
+  apply List.map_congr_left
+  intro c hc
+  exact extractChrom_succ s ss dense c (by have := List.mem_range.mp hc; omega)
+
+theorem flatten_toDict {α} (sizes : List Nat) : ∀ (dense : List α), dense.length = total sizes →
+    (toDict sizes dense).flatten = dense := by
+  induction sizes with
+  | nil => intro dense h; simp [total] at h; simp [toDict, h]
+  | cons s ss ih =>
+    intro dense h
+    rw [toDict_cons, List.flatten_cons, ih (dense.drop s) (by simp [total] at h ⊢; omega)]
+    exact List.take_append_drop s dense
+
+/-- **C10.global_is_concat** — the array over the whole genome that the in-memory pile-up / mask builds
+is exactly the concatenation, over the chromosomes of the (included) genome in order, of each
+chromosome's own single-contig array. Hence every genome-wide quantity — total length, sum, number of
+zero positions, any histogram — is that of the concatenation and depends on nothing else (in
+particular not on an ignored chromosome's size, which is not in `sizes`). -/
+theorem global_is_concat (sizes : List Nat) (ivs : List Iv) (hv : ∀ iv ∈ ivs, iv.valid sizes = true) :
+    pileupGlobal sizes ivs = some ((List.range sizes.length).map (specPileupChrom sizes ivs)).flatten ∧
+    maskGlobal sizes ivs = some ((List.range sizes.length).map (specMaskChrom sizes ivs)).flatten ∧
+    ((List.range sizes.length).map (specPileupChrom sizes ivs)).flatten.length = total sizes := by
+  obtain ⟨h1, h2⟩ := cover_local sizes ivs hv
+  have hp : ∃ d, pileupGlobal sizes ivs = some d ∧ d.length = total sizes := by
+    simp [pileupGlobal, omap_toGlobal sizes ivs hv]
+  have hm : ∃ d, maskGlobal sizes ivs = some d ∧ d.length = total sizes := by
+    simp [maskGlobal, omap_toGlobal sizes ivs hv]
+  obtain ⟨d, hd, hl⟩ := hp
+  obtain ⟨d', hd', hl'⟩ := hm
+  rw [hd] at h1; rw [hd'] at h2
+  simp only [Option.map_some, Option.some.injEq] at h1 h2
+  refine ⟨?_, ?_, ?_⟩
+  · rw [hd, ← h1, flatten_toDict sizes d hl]
+  · rw [hd', ← h2, flatten_toDict sizes d' hl']
+  · rw [← h1, flatten_toDict sizes d hl, hl]
+
+/-- **C10.stream_per_chromosome** — the streamed per-chromosome path gives one array per chromosome of the
+genome order, each the single-contig result of that chromosome's own entries — the all-zero array
+of the chromosome's full length for a chromosome without entries, whether it is the first, a middle
+or the last one — and these are exactly the per-chromosome views of the in-memory computation. -/
+theorem stream_per_chromosome (sizes : List Nat) (ivs : List Iv) :
+    pileupStream sizes ivs = (List.range sizes.length).map (specPileupChrom sizes ivs) ∧
+    maskStream sizes ivs = (List.range sizes.length).map (specMaskChrom sizes ivs) ∧
+    (pileupStream sizes ivs).length = sizes.length ∧
+    (∀ c, c < sizes.length → (∀ iv ∈ ivs, iv.c ≠ c) →
+      (pileupStream sizes ivs).getD c [] = List.replicate (size sizes c) 0) ∧
+    ((∀ iv ∈ ivs, iv.valid sizes = true) →
+      (pileupGlobal sizes ivs).map (toDict sizes) = some (pileupStream sizes ivs) ∧
+      (maskGlobal sizes ivs).map (toDict sizes) = some (maskStream sizes ivs)) := by
+  have h1 : pileupStream sizes ivs = (List.range sizes.length).map (specPileupChrom sizes ivs) := by
+    simp only [pileupStream, pile1]
+    apply List.map_congr_left
+    intro c _
+    simp only [specPileupChrom]
+    apply List.map_congr_left
+    intro p _
+    simp [covCount, List.filter_map]
+  have h2 : maskStream sizes ivs = (List.range sizes.length).map (specMaskChrom sizes ivs) := by
+    rw [maskStream, h1, List.map_map]; rfl
+  refine ⟨h1, h2, by simp [pileupStream], ?_, ?_⟩
+  · intro c hc hno
+    rw [h1]
+    simp only [List.getD_eq_getElem?_getD, List.getElem?_map, List.getElem?_range hc, Option.map_some, Option.getD_some,
+      specPileupChrom]
+    have : ivs.filter (fun iv => decide (iv.c = c)) = [] := by
+      simp only [List.filter_eq_nil_iff, decide_eq_true_eq]; exact hno
+    rw [this]
+    apply List.ext_getElem <;> simp
+  · intro hv
+    obtain ⟨a, b⟩ := cover_local sizes ivs hv
+    rw [a, b, h1, h2]; exact ⟨rfl, rfl⟩
+
+example : (pileupStream [2, 3, 2] [{ c := 0, s := 0, e := 2 }]) = [[1, 1], [0, 0, 0], [0, 0]] := by decide
+
+/-! ### `get_location` and `Geometry.sort` -/
+
+/-- **C10.location_inside** — `get_location` of an interval that lies inside its chromosome and is not empty
+is a position of that same interval (hence of that chromosome, never of a neighbour): the centre
+always; for stranded intervals the 5' end for `start` (`start` on `+`, `stop - 1` on `-`) and the 3'
+end for `stop`; for unstranded `start` the start. (For unstranded intervals the code returns the start
+also for `where = 'stop'`; that combination is modelled as the code has it and not claimed here.) -/
+theorem location_inside (sizes : List Nat) (iv : Iv) (hv : iv.valid sizes = true) (hne : iv.s < iv.e)
+    (stranded : Bool) (w : Nat) (hw : w ≤ 2) (hdom : stranded = true ∨ w ≠ 1) :
+    (iv.s : Int) ≤ location stranded w iv ∧ location stranded w iv < iv.e ∧
+    location stranded w iv < size sizes iv.c ∧
+    (w = 0 → stranded = true → location stranded w iv = if iv.fwd then (iv.s : Int) else (iv.e : Int) - 1) ∧
+    (w = 1 → stranded = true → location stranded w iv = if iv.fwd then (iv.e : Int) - 1 else (iv.s : Int)) := by
+  obtain ⟨_, _, h3⟩ := (valid_iff sizes iv).mp hv
+  have hw' : w = 0 ∨ w = 1 ∨ w = 2 := by omega
+  rcases hw' with rfl | rfl | rfl
+  · cases stranded <;> cases hf : iv.fwd <;> simp [location, hf] <;> omega
+  · rcases hdom with rfl | h
+    · cases hf : iv.fwd <;> simp [location, hf] <;> omega
+    · exact absurd rfl h
+  · cases stranded <;> simp [location] <;> omega
+
+example : ({ c := 0, s := 3, e := 5 } : Iv).valid [5, 5] = true ∧ (3 : Nat) < 5 := by decide
+
+theorem offset_mono (sizes : List Nat) (c₁ c₂ : Nat) (h : c₁ ≤ c₂) (h₂ : c₂ ≤ sizes.length) :
+    offset sizes c₁ ≤ offset sizes c₂ := by
+  rcases Nat.lt_or_eq_of_le h with h' | rfl
+  · have := offset_add_size_le sizes c₁ c₂ h' h₂; omega
+  · exact Nat.le_refl _
+
+/-- **C10.geometry_sort_genome_order** — `Geometry.sort` (order by start in concatenated coordinates) returns
+a permutation of the (valid) entries in genome order: chromosome indices are non-decreasing and, within
+a chromosome, starts are non-decreasing; an entry is never moved into a neighbouring chromosome's block. -/
+theorem geometry_sort_genome_order (sizes : List Nat) (ivs : List Iv) (hv : ∀ iv ∈ ivs, iv.valid sizes = true) :
+    (sortByGlobalStart sizes ivs).Perm ivs ∧
+    (sortByGlobalStart sizes ivs).Pairwise (fun a b => a.c < b.c ∨ (a.c = b.c ∧ a.s ≤ b.s)) := by
+  have hp : (sortByGlobalStart sizes ivs).Perm ivs := List.mergeSort_perm ivs _
+  refine ⟨hp, ?_⟩
+  have hs : (sortByGlobalStart sizes ivs).Pairwise
+      (fun a b => (decide (offset sizes a.c + a.s ≤ offset sizes b.c + b.s)) = true) :=
+    List.pairwise_mergeSort (le := fun a b => decide (offset sizes a.c + a.s ≤ offset sizes b.c + b.s))
+      (fun a b c h1 h2 => by simp only [decide_eq_true_eq] at *; omega)
+      (fun a b => by simp only [Bool.or_eq_true, decide_eq_true_eq]; omega) ivs
+  apply List.Pairwise.imp_of_mem _ hs
+  intro a b ha hb h
+  simp only [decide_eq_true_eq] at h
+  obtain ⟨ha1, ha2, _⟩ := (valid_iff sizes a).mp (hv a (hp.mem_iff.mp ha))
+  obtain ⟨hb1, hb2, _⟩ := (valid_iff sizes b).mp (hv b (hp.mem_iff.mp hb))
+  rcases Nat.lt_trichotomy a.c b.c with hc | hc | hc
+  · exact Or.inl hc
+  · right; refine ⟨hc, ?_⟩; rw [hc] at h; omega
+  · exfalso
+    have := offset_add_size_le sizes b.c a.c hc (by omega)
+    omega
+
 end C10
